@@ -49,12 +49,14 @@ REQUIRED_COUNTERS = {
               "observation_compared": 220, "coinciding_points_checked": 4000, "polynomial_reproduction_checked": 250,
               "model_forward_compared": 280, "model_gradient_compared": 40, "info_passthrough_checked": 170,
               "assembly_schedule_checked": 130, "refusal_observed": 25, "history_forward_compared": 180,
-              "input_unchanged_checked": 220, "nonfloat_variant_levels_checked": 900, "nonfloat_variant_steady_checked": 60},
+              "input_unchanged_checked": 220, "nonfloat_variant_levels_checked": 900, "nonfloat_variant_steady_checked": 60,
+              "same_length_offnode_discriminating": 90, "near_final_time_discriminating": 12},
     "thorough": {"steady_residual_checked": 1700, "euler_levels_checked": 25000, "be_solver_systems_checked": 18000,
                  "observation_compared": 4000, "coinciding_points_checked": 80000, "polynomial_reproduction_checked": 2800,
                  "model_forward_compared": 4500, "model_gradient_compared": 600, "info_passthrough_checked": 3400,
                  "assembly_schedule_checked": 2500, "refusal_observed": 500, "history_forward_compared": 1400,
-                 "input_unchanged_checked": 1800, "nonfloat_variant_levels_checked": 18000, "nonfloat_variant_steady_checked": 1200},
+                 "input_unchanged_checked": 1800, "nonfloat_variant_levels_checked": 18000, "nonfloat_variant_steady_checked": 1200,
+                 "same_length_offnode_discriminating": 1500, "near_final_time_discriminating": 230},
 }
 BUDGET_S = {"quick": 240.0, "thorough": 1500.0}
 
@@ -66,9 +68,12 @@ TIME_FORMS = ("ic_par", "src_par", "op_par")
 TIME_FMTS = ("dense", "csr", "npmatrix")
 METHODS = ("forward_euler", "backward_euler")
 TGRIDS = ("uniform", "nonuniform", "two_phase", "short")
-GRIDS = ("none", "sol_only", "equal_copy", "subset", "offnode", "offnode_samelen", "mixed")
+GRIDS = ("none", "sol_only", "equal_copy", "subset", "offnode", "offnode_samelen", "mixed", "near_far", "near_tiny")
+# near_far : same length as grid_sol, nodes shifted by 1e-3..0.4 of a spacing on a grid with coordinates ~1e3..1e4 and
+#            spacing 1e-2..1e-1;  near_tiny : same length, unit-scale grid, shifts ~1e-6 of the coordinate (some nodes kept)
 STEADY_GRIDS = GRIDS + ("subset_perm",)
-TOBS = ("final", "Final", "all", "explicit_final", "on_nodes", "single_mid_node", "off_nodes", "mixed", "list_on_nodes", "ALL")
+TOBS = ("final", "Final", "all", "explicit_final", "on_nodes", "single_mid_node", "off_nodes", "mixed", "list_on_nodes", "ALL",
+        "near_final", "near_nodes")      # times a tiny relative amount away from stored times, on a time grid at t ~ 1e3..1e4
 MAPS = ("none", "square", "matrix", "pick")
 HIST = ("fresh", "reassemble", "regrid_obs", "regrid_sol")
 # representation of what the user's PDE form / grids / parameter hand to the library (values are the same numbers)
@@ -146,10 +151,10 @@ def cases(tier, seed):
                     for inp in ("ndarray", "cuqiarray", "funvals", "keyword", "samples"):
                         for jac in ("jacobian", "gradient", "both", "neither")[: 4 if inp == "ndarray" else 1]:
                             c = {"kind": "model", "pde": pde, "form": form, "geom": geom, "input": inp, "jac": jac,
-                                 "grid": rg.choice(("none", "sol_only", "subset", "offnode", "mixed")), "map": rg.choice(MAPS[:3]), "rep": rep}
+                                 "grid": rg.choice(("none", "sol_only", "subset", "offnode", "mixed", "near_far", "near_far", "near_tiny")), "map": rg.choice(MAPS[:3]), "rep": rep}
                             if pde == "time":
                                 c.update({"method": rg.choice(METHODS), "tgrid": rg.choice(("uniform", "nonuniform", "two_phase")),
-                                          "tobs": rg.choice(("final", "final", "all", "on_nodes", "off_nodes", "explicit_final"))})
+                                          "tobs": rg.choice(("final", "final", "all", "on_nodes", "off_nodes", "explicit_final", "near_final"))})
                             out.append(c)
     # ---- histories on one PDEModel object
     for rep in range({"quick": 1, "thorough": 8}[tier]):
@@ -160,7 +165,7 @@ def cases(tier, seed):
                         if scen == "settings_method" and pde == "steady":
                             continue
                         c = {"kind": "history", "pde": pde, "form": form, "geom": geom, "scenario": scen, "input": "ndarray", "jac": "jacobian",
-                             "grid": rg.choice(("sol_only", "subset", "offnode", "mixed", "equal_copy")), "map": rg.choice(MAPS[:3]), "rep": rep}
+                             "grid": rg.choice(("sol_only", "subset", "offnode", "mixed", "equal_copy", "near_far")), "map": rg.choice(MAPS[:3]), "rep": rep}
                         if pde == "time":
                             c.update({"method": rg.choice(METHODS), "tgrid": rg.choice(("uniform", "nonuniform", "two_phase")),
                                       "tobs": rg.choice(("final", "final", "explicit_final", "single_mid_node", "all", "off_nodes"))})
@@ -284,9 +289,13 @@ def _patched_default_solver(rec_holder):
 
 
 # --------------------------------------------------------------------------- generators
-def _mk_grid(rs, n, uniform=None):
+def _mk_grid(rs, n, uniform=None, far=False):
     if uniform is None:
         uniform = rs.rand() < 0.35
+    if far:          # large coordinate offset, small spacing
+        x0, h0 = float(10 ** rs.uniform(3, 4)), float(10 ** rs.uniform(-2, -1))
+        h = np.full(n - 1, h0) if uniform else h0 * rs.uniform(0.5, 2.0, n - 1)
+        return x0 + np.concatenate([[0.0], np.cumsum(h)])
     scale = float(rs.choice([0.05, 0.3, 1.0]))
     x0 = float(rs.choice([0.0, -1.3, 0.25]))
     if uniform:
@@ -314,6 +323,21 @@ def _mk_obs_grid(rs, x, kind):
         return np.sort(rs.uniform(x[0], x[-1], k))
     if kind == "offnode_samelen":
         return np.sort(rs.uniform(x[0], x[-1], n))
+    if kind in ("near_far", "near_tiny"):
+        xf = np.asarray(x, dtype=float)
+        h = np.diff(xf)
+        hloc = np.concatenate([[h[0]], np.minimum(h[:-1], h[1:]), [h[-1]]])
+        sign = rs.choice([-1.0, 1.0], n)
+        sign[0], sign[-1] = 1.0, -1.0                       # stay inside the solution grid
+        if kind == "near_far":
+            mag = hloc * 10 ** rs.uniform(-3, np.log10(0.4), n) if rs.rand() < 0.5 else hloc * float(10 ** rs.uniform(-3, np.log10(0.4)))
+        else:
+            mag = np.minimum(1e-6 * np.maximum(np.abs(xf), 0.1) * rs.uniform(0.1, 1.0, n), 0.1 * hloc)
+            mag[np.abs(xf) < 0.1] = 0.0                     # nodes near the origin stay on the node
+            if not np.any(mag > 0):
+                mag[n // 2] = min(1e-7, 0.1 * hloc[n // 2])
+        g = xf + sign * mag
+        return g
     if kind == "mixed":
         k = int(rs.randint(1, max(2, n - 2)))
         idx = rs.choice(np.arange(1, n - 1), min(k, n - 2), replace=False)
@@ -352,6 +376,21 @@ def _mk_time_obs(rs, ts, kind):
         return kind, ts.copy()
     if kind == "explicit_final":
         return np.array([ts[-1]]), ts[-1:].copy()
+    if kind == "near_final":       # just before the final time (relative distance 1e-9..1e-5 at large t, or a fraction of dt)
+        tf = np.asarray(ts, dtype=float)
+        dt = tf[-1] - tf[-2]
+        delta = min(0.4 * dt, max(abs(tf[-1]) * 10 ** rs.uniform(-9, -5.3), dt * 1e-6))
+        v = np.array([tf[-1] - delta])
+        return v, v.copy()
+    if kind == "near_nodes":
+        tf = np.asarray(ts, dtype=float)
+        k = int(rs.randint(2, max(3, nt)))
+        idx = np.sort(rs.choice(nt, min(k, nt), replace=False))
+        d = np.diff(tf)
+        dl = np.concatenate([[d[0]], np.minimum(d[:-1], d[1:]), [d[-1]]])[idx]
+        sg = rs.choice([-1.0, 1.0], len(idx)); sg[idx == 0] = 1.0; sg[idx == nt - 1] = -1.0
+        v = tf[idx] + sg * np.minimum(0.3 * dl, np.maximum(np.abs(tf[idx]) * 10 ** rs.uniform(-9, -5.3, len(idx)), dl * 1e-6))
+        return v, v.copy()
     if kind in ("on_nodes", "list_on_nodes"):
         k = int(rs.randint(2, max(3, nt)))
         idx = np.sort(rs.choice(nt, min(k, nt), replace=False))
@@ -611,7 +650,7 @@ def _build_steady_pde(ctx, rs, case, n=None):
     form_pure, cast, sampler = _typed_steady(form0, sampler0, dk)
     fmt = case.get("fmt", "dense")
     rec_form = RecCallable(lambda p: (lambda Ab: (_fmt(Ab[0], fmt), Ab[1]))(cast(form_pure(p))))
-    x = _int_grid(rs, n) if dk == "grid_int" else _mk_grid(rs, n)
+    x = _int_grid(rs, n) if dk == "grid_int" else _mk_grid(rs, n, far=(case["grid"] == "near_far"))
     gk = case["grid"]
     grid_obs = _mk_obs_grid(rs, x, gk)
     n_obs = n if grid_obs is None else len(grid_obs)
@@ -671,6 +710,10 @@ def _judge_steady_observation(ctx, S, u, obs, cfg, x=None, grid_obs="_unset"):
     pre, exp, idx = _ref_observe_steady(u, x, grid_obs, S["ref_map"])
     ctx.count("observation_compared")
     sc = max(1.0, float(np.abs(u).max()))
+    if idx is not None and np.shape(pre) == np.shape(u):
+        ctx.count("same_length_offnode_observed")
+        if float(np.max(np.abs(pre - np.asarray(u, dtype=float)))) > 1e-6 * sc:      # raw nodal values would be visibly wrong
+            ctx.count("same_length_offnode_discriminating")
     rec_map = S["rec_map"]
     if rec_map is not None and rec_map.calls:
         seen = np.asarray(rec_map.calls[-1]["args"][0], dtype=float)
@@ -763,7 +806,9 @@ def _build_time_pde(ctx, rs, case, n=None, ts=None, x=None):
     ts = _mk_time_grid(rs, case["tgrid"]) if ts is None else ts
     if dk == "ts_int":
         ts = int(rs.randint(-1, 3)) + np.concatenate([[0], np.cumsum(rs.randint(1, 4, len(ts) - 1))]).astype(int)
-    x = (_int_grid(rs, n) if dk == "grid_int" else _mk_grid(rs, n)) if x is None else x
+    x = (_int_grid(rs, n) if dk == "grid_int" else _mk_grid(rs, n, far=(case["grid"] == "near_far"))) if x is None else x
+    if case["tobs"] in ("near_final", "near_nodes") and dk != "ts_int":
+        ts = ts - ts[0] + float(10 ** rs.uniform(3, 4))
     gk = case["grid"]
     grid_obs = _mk_obs_grid(rs, x, gk)
     n_obs = n if grid_obs is None else len(grid_obs)
@@ -867,6 +912,16 @@ def _judge_time_observation(ctx, S, U, obs, cfg):
     pre, exp, direct = _ref_observe_time(U, S["x"], S["grid_obs"], S["ts"], S["tobs"], S["ref_map"])
     ctx.count("observation_compared")
     sc = max(1.0, float(np.abs(U).max()))
+    if S["x"] is not None and S["grid_obs"] is not None and len(S["x"]) == len(S["grid_obs"]) and not np.array_equal(S["x"], S["grid_obs"]):
+        ctx.count("same_length_offnode_observed")
+        Mx_, _ = _restrict_or_interp_matrix(S["x"], S["grid_obs"], min(3, len(S["x"]) - 1))
+        if float(np.max(np.abs(Mx_ @ U - U))) > 1e-6 * sc:
+            ctx.count("same_length_offnode_discriminating")
+    if not direct and len(S["tobs"]) == 1 and S["tobs"][0] != S["ts"][-1] and abs(S["tobs"][0] - S["ts"][-1]) < 0.5 * abs(S["ts"][-1] - S["ts"][-2]):
+        ctx.count("near_final_time_observed")
+        Mx_ = np.eye(U.shape[0]) if (S["grid_obs"] is None or S["x"] is None) else _restrict_or_interp_matrix(S["x"], S["grid_obs"], min(3, len(S["x"]) - 1))[0]
+        if np.ndim(pre) == 2 and float(np.max(np.abs(pre[:, 0] - Mx_ @ U[:, -1]))) > 1e-6 * sc:      # the last level itself would be visibly wrong
+            ctx.count("near_final_time_discriminating")
     rec_map = S["rec_map"]
     seen = None
     if rec_map is not None and rec_map.calls:
@@ -981,7 +1036,7 @@ def _run_observe(case, ctx, rs):
     import cuqi
     cfg = _cfg(case)
     n = int(rs.randint(5, 22))
-    x = _mk_grid(rs, n)
+    x = _mk_grid(rs, n, far=(case["grid"] == "near_far"))
     gk = case["grid"]
     grid_obs = _mk_obs_grid(rs, x, gk)
     n_obs = n if grid_obs is None else len(grid_obs)
@@ -1010,6 +1065,8 @@ def _run_observe(case, ctx, rs):
         ctx.nontrivial()
         return
     ts = _mk_time_grid(rs, case["tgrid"])
+    if case["tobs"] in ("near_final", "near_nodes"):
+        ts = ts - ts[0] + float(10 ** rs.uniform(3, 4))
     tobs_lib, tobs = _mk_time_obs(rs, ts, case["tobs"])
     pde = cuqi.pde.TimeDependentLinearPDE(dummy, ts.copy(), time_obs=tobs_lib, grid_sol=None if gk == "none" else x, grid_obs=grid_obs, observation_map=rec_map)
     S = dict(pde=pde, x=None if gk == "none" else x, grid_obs=grid_obs, ts=ts, tobs=tobs, rec_map=rec_map, ref_map=ref_map)
